@@ -18,7 +18,7 @@
      vertex_cover_hk_total, konig_schedule_independent, minimum_cover_le_sides, select_rows_cols_* *)
 From Coq Require Import List Arith Lia Bool Permutation.
 Import ListNotations.
-From RV Require Import Model.Cover.
+From RV Require Import Model.Cover Gen.CoverAdj.
 
 (* ------------------------------------------------------------------ list helpers *)
 Lemma memn_spec a l : reflect (In a l) (memn a l).
@@ -1140,3 +1140,48 @@ Lemma rev_is_rot : is_rot (fun _ l => rev l).
 Proof. intros k l. apply Permutation_sym, Permutation_rev. Qed.
 Lemma no_rot_is_rot : is_rot no_rot.
 Proof. intros k l. apply Permutation_refl. Qed.
+
+(* ------------------------------------------------------------------ bigraph (generated, Gen/CoverAdj.v) IS the
+   incidence matrix: labels are unbounded nat, the label map rendered from the source is the identity *)
+Lemma nbrs_bigraph_of_sparse indices indptr n u :
+  nbrs (bigraph_of_sparse indices indptr n) u = if Nat.ltb u n then sparse_slice indices indptr u else [].
+Proof.
+  unfold bigraph_of_sparse. destruct (Nat.ltb_spec u n) as [H|H].
+  - unfold nbrs. rewrite nth_map_seq by exact H. cbn [Nat.add]. unfold adj_label. apply map_id.
+  - unfold nbrs. apply nth_overflow. rewrite map_length, seq_length. exact H.
+Qed.
+
+Theorem bigraph_is_incidence_matrix indices indptr n u v :
+  In v (nbrs (bigraph_of_sparse indices indptr n) u) <-> u < n /\ In v (sparse_slice indices indptr u).
+Proof.
+  rewrite nbrs_bigraph_of_sparse. destruct (Nat.ltb_spec u n) as [H|H]; split.
+  - intros Hv; split; auto.
+  - intros [_ Hv]; auto.
+  - intros [].
+  - intros [Hu _]. lia.
+Qed.
+
+Theorem bigraph_cover_is_incidence_cover indices indptr n cu cv :
+  is_cover (bigraph_of_sparse indices indptr n) cu cv <->
+  (forall i j, i < n -> In j (sparse_slice indices indptr i) -> In i cu \/ In j cv).
+Proof.
+  unfold is_cover. split.
+  - intros H i j Hi Hj. apply H. apply bigraph_is_incidence_matrix. auto.
+  - intros H u v Hv. apply bigraph_is_incidence_matrix in Hv. destruct Hv as [Hu Hv]. auto.
+Qed.
+
+(* the cover computed for the generated bigraph is a MINIMUM set of rows + columns touching every entry of the
+   sparse matrix, whatever the size of the labels *)
+Theorem decompose_graph_cover_touches_every_entry rot indices indptr n : is_rot rot ->
+  exists cu cv, vertex_cover_hungarian rot (bigraph_of_sparse indices indptr n) = Some (cu, cv) /\
+    (forall i j, i < n -> In j (sparse_slice indices indptr i) -> In i cu \/ In j cv) /\
+    (forall cu' cv', NoDup cu' -> NoDup cv' ->
+       (forall i j, i < n -> In j (sparse_slice indices indptr i) -> In i cu' \/ In j cv') ->
+       length cu + length cv <= length cu' + length cv').
+Proof.
+  intros Hr. destruct (vertex_cover_hungarian_correct rot (bigraph_of_sparse indices indptr n) Hr)
+    as (ml & cu & cv & _ & Hc & (Hcov & _ & _ & Hmin) & _).
+  exists cu, cv. split; [exact Hc|]. split.
+  - apply bigraph_cover_is_incidence_cover; exact Hcov.
+  - intros cu' cv' N1 N2 H'. apply Hmin; auto. apply bigraph_cover_is_incidence_cover; exact H'.
+Qed.
